@@ -58,6 +58,7 @@ type fcase struct {
 	Sr    string   `json:"sr"`
 	Sa    string   `json:"sa"`
 	Sb    string   `json:"sb"`
+	Mag   string   `json:"mag"`
 	Opts  []optv   `json:"opts"`
 	Keep  []string `json:"keep"`
 	May   []string `json:"may"`
@@ -231,6 +232,23 @@ func clearBuffers(v reflect.Value) {
 }
 
 var inputScale = 1.0 // second call of mode "reuse": other input values
+var magClass = "1"   // magnitude class of the case
+
+// the value of input element number k in the magnitude class of the case
+func scaled(x float64, k int) float64 {
+	switch magClass {
+	case "1e150":
+		return x * inputScale * 1e150
+	case "1e-150":
+		return x * inputScale * 1e-150
+	case "mixed":
+		if k%2 == 0 {
+			return x * inputScale * 1e150
+		}
+		return x * inputScale * 1e-150
+	}
+	return x * inputScale
+}
 
 func elemType(e string) ScalarType {
 	switch e {
@@ -246,7 +264,7 @@ func denseMat(e string, vals []float64, r, c int) Matrix {
 	m := NullDenseMatrix(elemType(e), r, c)
 	for i := 0; i < r; i++ {
 		for j := 0; j < c; j++ {
-			m.At(i, j).SetFloat64(vals[i*c+j] * inputScale)
+			m.At(i, j).SetFloat64(scaled(vals[i*c+j], i*c+j))
 		}
 	}
 	return m
@@ -254,7 +272,7 @@ func denseMat(e string, vals []float64, r, c int) Matrix {
 func denseVec(e string, vals []float64) Vector {
 	v := NullDenseVector(elemType(e), len(vals))
 	for i, x := range vals {
-		v.At(i).SetFloat64(x * inputScale)
+		v.At(i).SetFloat64(scaled(x, i))
 	}
 	return v
 }
@@ -562,7 +580,7 @@ func buildAlgorithm(c *fcase, cache map[string]interface{}) *frameRun {
 		}
 		f.call = func() error { _, _, _, err := svd.Run(a, args...); return err }
 	case "givensRotation.Run":
-		a, b, cc, s := NewScalar(elemType(e), 3), NewScalar(elemType(e), 4), nullS(e), nullS(e)
+		a, b, cc, s := NewScalar(elemType(e), scaled(3, 0)), NewScalar(elemType(e), scaled(4, 1)), nullS(e), nullS(e)
 		f.role("a", a)
 		f.role("b", b)
 		f.role("c", cc)
@@ -628,6 +646,9 @@ func buildAlgorithm(c *fcase, cache map[string]interface{}) *frameRun {
 		f.call = func() error { _, err := bfgs.Run(quadratic, x0, args...); return err }
 	case "rprop.Run", "rprop.RunGradient":
 		eta := []float64{1.2, 0.5}
+		if c.opt("EtaSwapped") {
+			eta = []float64{0.5, 1.2}
+		}
 		f.role("eta", eta)
 		args := []interface{}{rprop.Epsilon{1e-6}}
 		if c.opt("Hook") {
@@ -1041,6 +1062,10 @@ func frame(casesPath, resultsPath, tracePath string) {
 		ncases++
 		var f, prev *frameRun
 		cache := map[string]interface{}{}
+		magClass = c.Mag
+		if magClass == "" {
+			magClass = "1"
+		}
 		bmsg := vh.Try(func() {
 			switch {
 			case strings.HasPrefix(c.Entry, "dist.") || strings.HasPrefix(c.Entry, "estimator."):
@@ -1103,7 +1128,7 @@ func frame(casesPath, resultsPath, tracePath string) {
 		}
 		executed++
 		entries[c.Entry]++
-		sig := vh.M{"engine": "copysem", "part": "B", "entry": c.Entry, "op": c.Op, "elem": c.Elem, "mode": c.Mode,
+		sig := vh.M{"engine": "copysem", "part": "B", "entry": c.Entry, "op": c.Op, "elem": c.Elem, "mode": c.Mode, "mag": magClass,
 			"opts": c.optString(), "outcome": outcome}
 		if c.Sr != "-" || c.Sa != "-" {
 			sig["storage"] = c.Sr + "/" + c.Sa + "/" + c.Sb
